@@ -1,6 +1,7 @@
 (* C09 — bloom filters have no false negatives and are bit-exact BIP37.
    Only statements; every proof is `exact <lemma proved elsewhere>`. *)
 From BU Require Import Lib.Bytes Bloom.Murmur3 Bloom.Bloom Bloom.Bip37Spec Bloom.BloomProofs Bloom.Bip37Proofs.
+From BU Require Import Bloom.SizingProofs.
 
 (* an item just added to a loaded filter matches (len_ok: uint32(len)<<3 does not wrap, implied by the wire limit) *)
 Theorem C09_add_matches : forall f x, len_ok f -> is_loaded f = true -> matches (add f x) x = true.
@@ -65,6 +66,15 @@ Theorem C09_new_filter_within_limits : forall conv_len conv_hash tweak flags,
             Forall (fun b => b = 0) (m_bytes m) /\ m_tweak m < 2^32.
 Proof. exact new_filter_within_limits. Qed.
 Print Assumptions C09_new_filter_within_limits.
+
+(* the massaging of fprate (IEEE comparisons; lo = the float64 1e-9): every non-NaN argument — negative, zero,
+   huge, infinite — ends in [lo, 1]; NaN passes through (and is then absorbed by the clamps above) *)
+Theorem C09_fprate_clamp : forall lo : QArith_base.Q,
+  QArith_base.Qlt (QArith_base.Qmake 0%Z 1%positive) lo -> QArith_base.Qle lo (QArith_base.Qmake 1%Z 1%positive) ->
+  SizingProofs.clamp_fprate lo SizingProofs.FNaN = SizingProofs.FNaN /\ forall p, p <> SizingProofs.FNaN ->
+    exists q, SizingProofs.clamp_fprate lo p = SizingProofs.FFin q /\ QArith_base.Qle lo q /\ QArith_base.Qle q (QArith_base.Qmake 1%Z 1%positive).
+Proof. intros lo H1 H2. split; [exact (SizingProofs.clamp_nan lo)|exact (SizingProofs.clamp_range lo H2)]. Qed.
+Print Assumptions C09_fprate_clamp.
 
 (* the empty array behaves as in Bitcoin Core since CVE-2013-5700: matches everything, insertion is a no-op
    (so "no false negatives" holds there too, and nothing divides by zero) *)
